@@ -1,6 +1,6 @@
 from cfgcommon import COMMON_ASSUME
 
-_RACE = {"GORACE": "log_path=/verif/.work/race/c10 halt_on_error=0 history_size=2"}
+_RACE = {"GORACE": "log_path={WORK}/race/c10 halt_on_error=0 history_size=2"}
 
 CFG = {
     "level": "model_checking",
